@@ -474,3 +474,53 @@ fn runner_poll_reaction_for_same_system()
     kani::cover!(true, "end of harness reached");
     std::mem::forget(world);
 }
+
+//-------------------------------------------------------------------------------------------------------------------
+// where the runner polls (C08): marks instead of no-ops
+//-------------------------------------------------------------------------------------------------------------------
+pub fn stub_gc_mark(w: &mut World) { w.resource_mut::<Log>().push(31); }
+pub fn stub_poll_mark(w: &mut World) { w.resource_mut::<Log>().push(32); }
+/// index of the last occurrence of `x` in the log (or None)
+pub fn last_index(world: &World, x: u8) -> Option<usize>
+{
+    let log = world.resource::<Log>();
+    let mut r = None;
+    bevy::m_unrolled!(i in [0, 1, 2, 3, 4, 5, 6, 7, 8, 9, 10, 11] { if i < log.len && log.entries[i] == x { r = Some(i); } });
+    r
+}
+macro_rules! runner_marks_harness {
+    ($name:ident, $unwind:literal, $body:block) => {
+        #[kani::proof]
+        #[kani::stub(core::any::TypeId::of, crate::vh::stub_typeid_of)]
+        #[kani::stub(<core::any::TypeId as crate::vh::PEq>::eq, crate::vh::stub_typeid_eq)]
+        #[kani::stub(crate::ecs::auto_despawn::garbage_collect_entities, stub_gc_mark)]
+        #[kani::stub(crate::react::utils::schedule_removal_and_despawn_reactors, stub_poll_mark)]
+        #[kani::stub(bevy::world::Commands::queue, bevy::world::Commands::m_queue_record)]
+        #[kani::stub(<bevy::world::EntityWorldMut as bevy::hierarchy::DespawnRecursiveExt>::despawn_recursive, stub_despawn_recursive_flag)]
+        #[kani::unwind($unwind)]
+        fn $name() $body
+    };
+}
+
+/// S7 (C08/C07): whatever a run (or an aborted command's cleanup) removed, despawned or released is looked at before the
+/// runner returns: after the system and its cleanup there is a garbage collection followed by a removal/despawn poll - at
+/// the root and inside a tree, for an idle target and for a missing one.
+runner_marks_harness!(runner_polls_after_the_run, 3, {
+    let mut world = mk_world();
+    world.m_apply_table::<(SystemCommand,)>();
+    world.m_drop_table::<bevy::model::cell::LeakAll>();
+    let a = logger(&mut world, 1);
+    let missing: bool = kani::any();
+    let target = if missing { SystemCommand(Entity::m_new(a.index(), a.generation() + 1)) } else { a };
+    let idx: usize = if kani::any() { 0 } else { 3 };
+    set_counter(&mut world, idx);
+    syscommand_runner(&mut world, target, setup_k(1, target), cleanup_k(1));
+    let cleanup_at = last_index(&world, 21);
+    let gc_at = last_index(&world, 31);
+    let poll_at = last_index(&world, 32);
+    assert!(cleanup_at.is_some() && world.resource::<Log>().count(1) == (if missing { 0 } else { 1 }));
+    assert!(gc_at.is_some() && gc_at > cleanup_at, "C07/C10: entities released by the run (or by an aborted command's cleanup) are collected before the runner returns");
+    assert!(poll_at.is_some() && poll_at > gc_at, "C08: removals and despawns caused by the run - including those of that collection - are polled before the runner returns, i.e. within the tree");
+    kani::cover!(missing && idx == 0, "aborted at the root"); kani::cover!(!missing && idx == 3, "ran inside a tree");
+    std::mem::forget(world);
+});
